@@ -1,4 +1,4 @@
-import Dmn.Lemmas.RefParserPrint
+import Dmn.Lemmas.RefParserEnds
 
 /-!
 # C06 — the compositional lemma and the round trip
@@ -30,10 +30,10 @@ theorem parse_opd {m : Mode} {c : Tree} (ih : Reads m c) (w : Bool) (k : Nat) (r
     obtain ⟨h1, h2⟩ := hb rfl
     simpa [par_false] using ih k rest h1 h2
   | true =>
-    have hop : opLevel Tok.rparen = none := rfl
+    have hop : Delim Tok.rparen := ⟨rfl, rfl⟩
     have h0 : parseExpr 0 (pr m c ++ (.rparen :: rest)) = some (c, .rparen :: rest) := by
       rw [ih 0 (.rparen :: rest) (startsOk_zero m c) (notAbsorbed_of_none m c hop rest)]
-      exact parseLoop_stop_none hop
+      exact parseLoop_stop_none hop.1
     have hl : rest.length ≤ (pr m c ++ (.rparen :: rest)).length := by
       simp [List.length_append]; omega
     have := parseExpr_paren (min := k) h0 hl
@@ -107,13 +107,38 @@ theorem needs_filterE (m : Mode) (c : Tree) : needs m .filterE c = absorbs m c .
 theorem needs_filterI (m : Mode) (c : Tree) : needs m .filterI c = false := rfl
 theorem needs_callF (m : Mode) (c : Tree) : needs m .callF c = absorbs m c .lparen := rfl
 theorem needs_callArg (m : Mode) (c : Tree) : needs m .callArg c = false := rfl
+theorem needs_delim (m : Mode) (c : Tree) : needs m .delim c = false := rfl
+theorem needs_open (m : Mode) (k : Nat) (c : Tree) : needs m (.open k) c = !startsOk m k c := rfl
 
 /-- An operand between delimiters: read at minimum 0 up to a token that is no operator. -/
-theorem parse_delimited {m : Mode} {c : Tree} (ih : Reads m c) (n : Bool) {t : Tok} (ht : opLevel t = none)
+theorem parse_delimited {m : Mode} {c : Tree} (ih : Reads m c) (n : Bool) {t : Tok} (ht : Delim t)
     (rest : List Tok) :
     parseExpr 0 (par (wrapped m n c) (pr m c) ++ (t :: rest)) = some (c, t :: rest) :=
   parse_opd_stop ih _ 0 (t :: rest) (fun _ => ⟨startsOk_zero m c, notAbsorbed_of_none m c ht rest⟩)
-    (stopsAt_of_none ht 0 rest)
+    (stopsAt_of_none ht.1 0 rest)
+
+/-- The same in front of a token list whose first token is a delimiter. -/
+theorem parse_delimited' {m : Mode} {c : Tree} (ih : Reads m c) (n : Bool) {X : List Tok} {t : Tok} {ts : List Tok}
+    (hX : X = t :: ts) (ht : Delim t) :
+    parseExpr 0 (par (wrapped m n c) (pr m c) ++ X) = some (c, X) := by
+  rw [hX]; exact parse_delimited ih n ht ts
+
+theorem not_ellipsis_of_head {X : List Tok} {t : Tok} {ts : List Tok} (hX : X = t :: ts) (ht : t ≠ .ellipsis) :
+    ∀ x, X ≠ .ellipsis :: x := by
+  intro x h; rw [hX] at h; injection h with h1; exact ht h1
+
+theorem not_colon_of_head {X : List Tok} {t : Tok} {ts : List Tok} (hX : X = t :: ts) (ht : t ≠ .colon) :
+    ∀ x, X ≠ .colon :: x := by
+  intro x h; rw [hX] at h; injection h with h1; exact ht h1
+
+/-- The list form of `in` does not apply to a token list an operand is read from. -/
+theorem noInList_of_parse {o : BinOp} {k : Nat} {rest : List Tok} {res : Tree × List Tok}
+    (h : parseExpr k rest = some res) : NoInList o rest := by
+  intro rest0 h0 a rest1 hp
+  obtain ⟨_, hr⟩ := inListOf_length h0
+  subst hr
+  rw [parseExpr.eq_def] at h
+  simp [hp] at h
 
 mutual
 theorem parse_pr (m : Mode) : ∀ t : Tree, Reads m t
@@ -144,7 +169,7 @@ theorem parse_pr (m : Mode) : ∀ t : Tree, Reads m t
         rw [needs_binL] at this
         simp at this
         simpa using this.2
-    rw [parseLoop_bin hm hf hr (length_le_append _ _)]
+    rw [parseLoop_bin hm hf (noInList_of_parse hr) hr (length_le_append _ _)]
     rfl
   | .neg e => by
     intro min rest _ hna
@@ -167,7 +192,7 @@ theorem parse_pr (m : Mode) : ∀ t : Tree, Reads m t
       (fun hn => by rw [needs_betweenE] at hn; exact hn)
       (by simpa only [startsOk, needs_betweenE] using hs)
     rw [parse_opd ihe _ min _ heb]
-    have hlo := parse_delimited ihlo (needs m .betweenLo lo) (t := .band) rfl
+    have hlo := parse_delimited ihlo (needs m .betweenLo lo) (t := .band) ⟨rfl, rfl⟩
       (par (wrapped m (needs m .betweenHi hi) hi) (pr m hi) ++ rest)
     obtain ⟨hhb, hstop⟩ := tail_conditions m (.between e lo hi) hi hiMin (needs m .betweenHi hi) rest rfl
       (fun t => by simp only [absorbs, needs_betweenHi]) hna
@@ -210,7 +235,7 @@ theorem parse_pr (m : Mode) : ∀ t : Tree, Reads m t
       (fun hn => by rw [needs_filterE] at hn; exact hn)
       (by simpa only [startsOk, needs_filterE] using hs)
     rw [parse_opd ihe _ min _ heb]
-    have hi := parse_delimited ihi (needs m .filterI i) (t := .rbrack) rfl rest
+    have hi := parse_delimited ihi (needs m .filterI i) (t := .rbrack) ⟨rfl, rfl⟩ rest
     rw [parseLoop_filter hm hi (length_le_append_cons _ _ _)]
     rfl
   | .call f .nil => by
@@ -226,35 +251,235 @@ theorem parse_pr (m : Mode) : ∀ t : Tree, Reads m t
     intro min rest hs _
     have ihf := parse_pr m f
     have iha := parse_pr m a
-    have ihas := parseArgsTail_pr m as rest
+    have ihas := parseArgsTail_pr m .rparen ⟨rfl, rfl⟩ (by simp) (by simp) as rest
     simp only [pr, prArgs, List.append_assoc, List.cons_append]
     obtain ⟨hm, hfb⟩ := head_conditions m f min parenLvl .lparen (needs m .callF f)
-      (par (wrapped m (needs m .callArg a) a) (pr m a) ++ (prArgsTail m as ++ rest))
+      (par (wrapped m (needs m .callArg a) a) (pr m a) ++ (prArgsTail m .rparen as ++ rest))
       (fun hn => by rw [needs_callF] at hn; exact hn)
       (by simpa only [startsOk, needs_callF] using hs)
     rw [parse_opd ihf _ min _ hfb]
-    obtain ⟨t, ts, hts, hop⟩ := prArgsTail_head m as rest
-    have ha : parseExpr 0 (par (wrapped m (needs m .callArg a) a) (pr m a) ++ (prArgsTail m as ++ rest)) =
-        some (a, prArgsTail m as ++ rest) := by
-      rw [hts]; exact parse_delimited iha _ hop ts
-    rw [parseLoop_call hm ha (length_le_append _ _) ihas
+    obtain ⟨t, ts, hts, hop, _, hnc⟩ := prArgsTail_head m (close := .rparen) ⟨rfl, rfl⟩ (by simp) as rest
+    have ha := parse_delimited' iha (needs m .callArg a) hts hop
+    rw [parseLoop_call hm (namedStart_par m _ a _ (not_colon_of_head hts hnc)) ha (length_le_append _ _) ihas
       (Nat.le_trans (length_le_append _ _) (length_le_append _ _))]
     rfl
+  | .callNamed f n v bs => by
+    intro min rest hs _
+    have ihf := parse_pr m f
+    have ihv := parse_pr m v
+    have ihbs := parseBindsTail_pr m .colon .rparen ⟨rfl, rfl⟩ (by simp) (by simp) bs rest
+    simp only [pr, List.append_assoc, List.cons_append]
+    obtain ⟨hm, hfb⟩ := head_conditions m f min parenLvl .lparen (needs m .callF f)
+      (.name n :: .colon :: (par (wrapped m (needs m .delim v) v) (pr m v) ++ (prBindsTail m .colon .rparen bs ++ rest)))
+      (fun hn => by rw [needs_callF] at hn; exact hn)
+      (by simpa only [startsOk, needs_callF] using hs)
+    rw [parse_opd ihf _ min _ hfb]
+    obtain ⟨t, ts, hts, hop, _, _⟩ := prBindsTail_head m (sep := .colon) (close := .rparen) ⟨rfl, rfl⟩ (by simp) bs rest
+    have hv := parse_delimited' ihv (needs m .delim v) hts hop
+    rw [parseLoop_callNamed hm hv (length_le_append _ _) ihbs
+      (Nat.le_trans (length_le_append _ _) (length_le_append _ _))]
+    rfl
+  | .inList e a b more => by
+    intro min rest hs _
+    have ihe := parse_pr m e
+    have iha := parse_pr m a
+    have ihb := parse_pr m b
+    have ihmore := parseArgsTail_pr m .rparen ⟨rfl, rfl⟩ (by simp) (by simp) more rest
+    simp only [pr, List.append_assoc, List.cons_append]
+    obtain ⟨hm, heb⟩ := head_conditions m e min (lvl .in_) .kin (needs m (.binL .in_) e)
+      (.lparen :: (par (wrapped m (needs m .delim a) a) (pr m a) ++
+        (.comma :: (par (wrapped m (needs m .delim b) b) (pr m b) ++ (prArgsTail m .rparen more ++ rest)))))
+      (fun hn => by rw [needs_binL] at hn; simp at hn; exact hn.1)
+      (by simpa only [startsOk, needs_binL, tokOf] using hs)
+    rw [parse_opd ihe _ min _ heb]
+    have hf : ¬ (if wrapped m (needs m (.binL .in_) e) e then none else fbOf e) = some (lvl .in_) := by
+      cases hw : wrapped m (needs m (.binL .in_) e) e with
+      | true => simp
+      | false =>
+        have := wrapped_false hw
+        rw [needs_binL] at this
+        simp at this
+        simpa using this.2
+    have ha := parse_delimited iha (needs m .delim a) (t := .comma) ⟨rfl, rfl⟩
+      (par (wrapped m (needs m .delim b) b) (pr m b) ++ (prArgsTail m .rparen more ++ rest))
+    obtain ⟨t, ts, hts, hop, _, _⟩ := prArgsTail_head m (close := .rparen) ⟨rfl, rfl⟩ (by simp) more rest
+    have hb := parse_delimited' ihb (needs m .delim b) hts hop
+    have htail := parseArgsTail_cons hb (length_le_append _ _) ihmore
+    rw [parseLoop_inList hm hf ha (by len_tac) htail (by len_tac)]
+    rfl
+  | .ite c a b => by
+    intro min rest _ hna
+    simp only [pr, List.append_assoc, List.cons_append]
+    have hc := parse_delimited (parse_pr m c) (needs m .delim c) (t := .kthen) ⟨rfl, rfl⟩
+      (par (wrapped m (needs m .delim a) a) (pr m a) ++
+        (.kelse :: (par (wrapped m (needs m (.open iteMin) b) b) (pr m b) ++ rest)))
+    have ha := parse_delimited (parse_pr m a) (needs m .delim a) (t := .kelse) ⟨rfl, rfl⟩
+      (par (wrapped m (needs m (.open iteMin) b) b) (pr m b) ++ rest)
+    obtain ⟨hbb, hstop⟩ := tail_conditions m (.ite c a b) b iteMin (needs m (.open iteMin) b) rest rfl
+      (fun t => by simp only [absorbs, needs_open]) hna
+    have hb := parse_opd_stop (parse_pr m b) _ iteMin rest hbb hstop
+    rw [parseExpr_ite hc (by len_tac) ha (by len_tac) hb (by len_tac)]
+    rfl
+  | .forS v d its body => by
+    intro min rest _ hna
+    simp only [pr, List.append_assoc, List.cons_append]
+    obtain ⟨t, ts, hts, hop, hne, _⟩ := prItersTail_head m its
+      (par (wrapped m (needs m (.open forMin) body) body) (pr m body) ++ rest)
+    have hd := parse_delimited' (parse_pr m d) (needs m .delim d) hts hop
+    have hits := parseItersTail_pr m its (par (wrapped m (needs m (.open forMin) body) body) (pr m body) ++ rest)
+    obtain ⟨hbb, hstop⟩ := tail_conditions m (.forS v d its body) body forMin (needs m (.open forMin) body) rest rfl
+      (fun t => by simp only [absorbs, needs_open]) hna
+    have hb := parse_opd_stop (parse_pr m body) _ forMin rest hbb hstop
+    rw [parseExpr_forS hd (not_ellipsis_of_head hts hne) (by len_tac) hits (by len_tac) hb (by len_tac)]
+    rfl
+  | .forR v lo hi its body => by
+    intro min rest _ hna
+    simp only [pr, List.append_assoc, List.cons_append]
+    have hlo := parse_delimited (parse_pr m lo) (needs m .delim lo) (t := .ellipsis) ⟨rfl, rfl⟩
+      (par (wrapped m (needs m .delim hi) hi) (pr m hi) ++ (prItersTail m its ++
+        (par (wrapped m (needs m (.open forMin) body) body) (pr m body) ++ rest)))
+    obtain ⟨t, ts, hts, hop, _, _⟩ := prItersTail_head m its
+      (par (wrapped m (needs m (.open forMin) body) body) (pr m body) ++ rest)
+    have hhi := parse_delimited' (parse_pr m hi) (needs m .delim hi) hts hop
+    have hits := parseItersTail_pr m its (par (wrapped m (needs m (.open forMin) body) body) (pr m body) ++ rest)
+    obtain ⟨hbb, hstop⟩ := tail_conditions m (.forR v lo hi its body) body forMin (needs m (.open forMin) body) rest rfl
+      (fun t => by simp only [absorbs, needs_open]) hna
+    have hb := parse_opd_stop (parse_pr m body) _ forMin rest hbb hstop
+    rw [parseExpr_forR hlo (by len_tac) hhi (by len_tac) hits (by len_tac) hb (by len_tac)]
+    rfl
+  | .quant ev v d qs body => by
+    intro min rest _ hna
+    simp only [pr, List.append_assoc, List.cons_append]
+    obtain ⟨t, ts, hts, hop, _, _⟩ := prBindsTail_head m (sep := .kin) (close := .ksatisfies) ⟨rfl, rfl⟩ (by simp) qs
+      (par (wrapped m (needs m (.open (quantMin ev)) body) body) (pr m body) ++ rest)
+    have hd := parse_delimited' (parse_pr m d) (needs m .delim d) hts hop
+    have hqs := parseBindsTail_pr m .kin .ksatisfies ⟨rfl, rfl⟩ (by simp) (by simp) qs
+      (par (wrapped m (needs m (.open (quantMin ev)) body) body) (pr m body) ++ rest)
+    obtain ⟨hbb, hstop⟩ := tail_conditions m (.quant ev v d qs body) body (quantMin ev)
+      (needs m (.open (quantMin ev)) body) rest rfl (fun t => by simp only [absorbs, needs_open]) hna
+    have hb := parse_opd_stop (parse_pr m body) _ (quantMin ev) rest hbb hstop
+    rw [parseExpr_quant ev hd (by len_tac) hqs (by len_tac) hb (by len_tac)]
+    rfl
+  | .fn ps body => by
+    intro min rest _ hna
+    simp only [pr, List.append_assoc, List.cons_append]
+    obtain ⟨hbb, hstop⟩ := tail_conditions m (.fn ps body) body fnMin (needs m (.open fnMin) body) rest rfl
+      (fun t => by simp only [absorbs, needs_open]) hna
+    have hb := parse_opd_stop (parse_pr m body) _ fnMin rest hbb hstop
+    rw [parseExpr_fn (parseParams_pr ps _) (prParams_length ps _) hb
+      (Nat.le_trans (length_le_append _ _) (prParams_length ps _))]
+    rfl
+  | .list .nil => by
+    intro min rest _ hna
+    simp only [pr, prArgs, List.cons_append, List.nil_append]
+    rw [parseExpr_list_nil (emptyListRest_rbrack (fun t ts h => by subst h; simpa [notAbsorbed, absorbs] using hna))]
+    rfl
+  | .list (.cons a as) => by
+    intro min rest _ _
+    simp only [pr, prArgs, List.append_assoc, List.cons_append]
+    obtain ⟨t, ts, hts, hop, hne, _⟩ := prArgsTail_head m (close := .rbrack) ⟨rfl, rfl⟩ (by simp) as rest
+    have ha := parse_delimited' (parse_pr m a) (needs m .callArg a) hts hop
+    have has := parseArgsTail_pr m .rbrack ⟨rfl, rfl⟩ (by simp) (by simp) as rest
+    rw [parseExpr_list_cons (emptyListRest_par m _ a _) ha (not_ellipsis_of_head hts hne) (by len_tac) has (by len_tac)]
+    rfl
+  | .ctx .nil => by
+    intro min rest _ _
+    simp only [pr, prEntries, List.cons_append, List.nil_append]
+    rw [parseExpr_ctx_nil]
+    rfl
+  | .ctx (.cons k v es) => by
+    intro min rest _ _
+    simp only [pr, prEntries, List.append_assoc, List.cons_append]
+    obtain ⟨t, ts, hts, hop, _, _⟩ := prEntriesTail_head m es rest
+    have hv := parse_delimited' (parse_pr m v) (needs m .delim v) hts hop
+    have hes := parseEntriesTail_pr m es rest
+    rw [parseExpr_ctx_cons hv (by len_tac) hes (by len_tac)]
+    rfl
+  | .range b1 lo hi b2 => by
+    intro min rest _ _
+    simp only [pr, List.append_assoc, List.cons_append, List.nil_append]
+    have hprobe := parseExpr_prEnd lo (t := .ellipsis) (prEnd hi ++ endTok b2 :: rest) rfl
+    have hr := parseRange_pr b1 b2 lo hi rest
+    have hl : rest.length ≤ (prEnd lo ++ .ellipsis :: (prEnd hi ++ endTok b2 :: rest)).length := by len_tac
+    cases b1 with
+    | round => rw [startTok, parseExpr_range_round hprobe hr hl]; rfl
+    | rev => rw [startTok, parseExpr_range_rev hr hl]; rfl
+    | square =>
+      rw [startTok, parseExpr_range_square (by cases lo <;> simp [prEnd, emptyListRest]) hprobe hr hl]; rfl
+  | .utest c e => by
+    intro min rest _ hna
+    simp only [pr, List.cons_append]
+    have he : parseEnd (prEnd e ++ rest) = some (e, rest) := by
+      apply parseEnd_prEnd
+      intro hq n rest' hrest
+      subst hrest
+      simp [notAbsorbed, absorbs, hq] at hna
+    rw [parseExpr_utest he (by len_tac)]
+    rfl
 
-theorem parseArgsTail_pr (m : Mode) : ∀ (as : Args) (rest : List Tok),
-    parseArgsTail (prArgsTail m as ++ rest) = some (as, rest)
+theorem parseArgsTail_pr (m : Mode) (close : Tok) (hc : Delim close) (hce : close ≠ .ellipsis ∧ close ≠ .colon)
+    (hcc : close ≠ .comma) : ∀ (as : Args) (rest : List Tok),
+    parseArgsTail close (prArgsTail m close as ++ rest) = some (as, rest)
   | .nil, rest => by
     simp only [prArgsTail, List.cons_append, List.nil_append]
-    exact parseArgsTail_nil rest
+    exact parseArgsTail_nil hcc rest
   | .cons a as, rest => by
     have iha := parse_pr m a
-    have ihas := parseArgsTail_pr m as rest
+    have ihas := parseArgsTail_pr m close hc hce hcc as rest
     simp only [prArgsTail, List.append_assoc, List.cons_append]
-    obtain ⟨t, ts, hts, hop⟩ := prArgsTail_head m as rest
-    have ha : parseExpr 0 (par (wrapped m (needs m .callArg a) a) (pr m a) ++ (prArgsTail m as ++ rest)) =
-        some (a, prArgsTail m as ++ rest) := by
-      rw [hts]; exact parse_delimited iha _ hop ts
+    obtain ⟨t, ts, hts, hop, _, _⟩ := prArgsTail_head m hc hce as rest
+    have ha := parse_delimited' iha (needs m .callArg a) hts hop
     exact parseArgsTail_cons ha (length_le_append _ _) ihas
+
+theorem parseBindsTail_pr (m : Mode) (sep close : Tok) (hc : Delim close) (hce : close ≠ .ellipsis ∧ close ≠ .colon)
+    (hcc : close ≠ .comma) : ∀ (bs : Binds) (rest : List Tok),
+    parseBindsTail sep close (prBindsTail m sep close bs ++ rest) = some (bs, rest)
+  | .nil, rest => by
+    simp only [prBindsTail, List.cons_append, List.nil_append]
+    exact parseBindsTail_nil hcc rest
+  | .cons n v bs, rest => by
+    have ihv := parse_pr m v
+    have ihbs := parseBindsTail_pr m sep close hc hce hcc bs rest
+    simp only [prBindsTail, List.append_assoc, List.cons_append]
+    obtain ⟨t, ts, hts, hop, _, _⟩ := prBindsTail_head m (sep := sep) hc hce bs rest
+    have hv := parse_delimited' ihv (needs m .delim v) hts hop
+    exact parseBindsTail_cons hv (length_le_append _ _) ihbs
+
+theorem parseEntriesTail_pr (m : Mode) : ∀ (es : Entries) (rest : List Tok),
+    parseEntriesTail (prEntriesTail m es ++ rest) = some (es, rest)
+  | .nil, rest => by
+    simp only [prEntriesTail, List.cons_append, List.nil_append]
+    exact parseEntriesTail_nil rest
+  | .cons k v es, rest => by
+    have ihv := parse_pr m v
+    have ihes := parseEntriesTail_pr m es rest
+    simp only [prEntriesTail, List.append_assoc, List.cons_append]
+    obtain ⟨t, ts, hts, hop, _, _⟩ := prEntriesTail_head m es rest
+    have hv := parse_delimited' ihv (needs m .delim v) hts hop
+    exact parseEntriesTail_cons hv (length_le_append _ _) ihes
+
+theorem parseItersTail_pr (m : Mode) : ∀ (its : Iters) (rest : List Tok),
+    parseItersTail (prItersTail m its ++ rest) = some (its, rest)
+  | .nil, rest => by
+    simp only [prItersTail, List.cons_append, List.nil_append]
+    exact parseItersTail_nil rest
+  | .single v d its, rest => by
+    have ihd := parse_pr m d
+    have ihits := parseItersTail_pr m its rest
+    simp only [prItersTail, List.append_assoc, List.cons_append]
+    obtain ⟨t, ts, hts, hop, hne, _⟩ := prItersTail_head m its rest
+    have hd := parse_delimited' ihd (needs m .delim d) hts hop
+    exact parseItersTail_single hd (not_ellipsis_of_head hts hne) (length_le_append _ _) ihits
+  | .range v lo hi its, rest => by
+    have ihlo := parse_pr m lo
+    have ihhi := parse_pr m hi
+    have ihits := parseItersTail_pr m its rest
+    simp only [prItersTail, List.append_assoc, List.cons_append]
+    have hlo := parse_delimited ihlo (needs m .delim lo) (t := .ellipsis) ⟨rfl, rfl⟩
+      (par (wrapped m (needs m .delim hi) hi) (pr m hi) ++ (prItersTail m its ++ rest))
+    obtain ⟨t, ts, hts, hop, _, _⟩ := prItersTail_head m its rest
+    have hhi := parse_delimited' ihhi (needs m .delim hi) hts hop
+    exact parseItersTail_range hlo (by len_tac) hhi (by len_tac) ihits
 end
 
 end Dmn.Ref
